@@ -1065,7 +1065,7 @@ class FnItem:
                 break
         n_closures = 0
         for i, t in enumerate(btoks):
-            if t.text in ("|", "||") and i > 0 and btoks[i - 1].text in ("(", ","):
+            if t.text in ("|", "||") and i > 0 and (btoks[i - 1].text in ("(", ",", "=") or (btoks[i - 1].kind == "ident" and btoks[i - 1].text == "move")):
                 n_closures += 1
         if n_closures > len(sp.get("closures") or {}):
             self.imprecise.append("%d closure(s) without a spliced contract" % (n_closures - len(sp.get("closures") or {})))
@@ -1151,7 +1151,7 @@ class FnItem:
             sig += ("\n    where " if " where " not in sig and "\nwhere" not in sig else ", ") + sp["sig_where"]
         pieces = []
         attrs = list(sp.get("attrs", []))
-        if loop_heads(body) and not any("loop_isolation" in a for a in attrs) and not sp.get("loop_isolation"):
+        if sp.get("loop_context") and loop_heads(body) and not any("loop_isolation" in a for a in attrs):
             # loops see the facts established before them about variables they do not modify (Verus' default isolates a loop from its
             # context, so a local that is merely introduced before a loop - `let check = !self.skip;` - would make a correct body fail)
             attrs.append("#[verifier::loop_isolation(false)]")
